@@ -82,7 +82,8 @@ int main(int argc, char **argv) {
         rec.open(plan.at("records").get<std::string>());
     std::vector<std::string> only = plan.value("families", std::vector<std::string>{});
 
-    size_t cases = 0, runs = 0, failures = 0, nrecords = 0;
+    size_t cases = 0, runs = 0, failures = 0, nrecords = 0, ndiag = 0;
+    json diags = json::array();
     std::map<std::string, size_t> kinds;
     json replays = json::array(), notes = json::array(), samples = json::array(), fams = json::array();
     for (auto &f : algoFamilies())
@@ -115,6 +116,11 @@ int main(int argc, char **argv) {
                 alarm(600); // a case that never returns ends the harness with the crash note
             }
             CaseResult r = f->run(c, seed);
+            for (auto &dg : r.diagnostics) {
+                ++ndiag;
+                if (diags.size() < 3)
+                    diags.push_back(f->name() + ": " + dg.substr(0, 300));
+            }
             for (auto &x : r.records) {
                 if (rec.is_open())
                     rec << x.dump() << "\n";
@@ -136,7 +142,7 @@ int main(int argc, char **argv) {
         rec.close();
     json summary = {{"mode", "algo"}, {"cases", cases}, {"runs", runs}, {"failures", failures}, {"records", nrecords},
                     {"kinds", kinds}, {"replays", replays}, {"fail_notes", notes}, {"samples", samples},
-                    {"families", fams}};
+                    {"families", fams}, {"outside_property_differences", ndiag}, {"outside_property_notes", diags}};
     std::cout << "SUMMARY " << summary.dump() << std::endl;
     return failures ? 1 : 0;
 }
